@@ -117,6 +117,11 @@ func (l *Lexer) Next() (token.Token, error) {
 	// multi-line comments
 	if l.ch == rune('/') && l.peekChar() == rune('*') {
 		l.skipMultiLineComment()
+		// Comments that follow directly are skipped in a loop: one level of
+		// recursion per comment exhausts the native stack on a long run
+		for l.skipTabsAndSpaces(); l.ch == rune('/') && l.peekChar() == rune('*'); l.skipTabsAndSpaces() {
+			l.skipMultiLineComment()
+		}
 		// Start over, so that another comment may follow this one and the
 		// start position of the next token is recorded after the comment
 		return l.Next()
